@@ -357,7 +357,7 @@ def r2_permutation(w):
 
 
 def r3_nothing_else_depends_on_flag(w):
-    r = RuleResult('C19.R3', 'flag read at one site; Config::default and the CLI default are false; no other order-changing operation on nodes', floor=5)
+    r = RuleResult('C19.R3', 'flag read at one site; Config::default and the CLI default are false; no other order-changing operation on nodes', floor=5 if w.cli is not None else 4)
     core = w.core
     loads = []
     for b in w.fn_bodies(core):
